@@ -59,10 +59,30 @@ def _complement_nonempty(items):
     return any(c not in covered for c in range(0x20, 0x7f))
 
 
-def _quant(bounded_only):
+BIG_COUNTS = [31, 32, 33, 40, 43, 44, 45, 63, 64, 65]      # around max_repeat (32), its double, and sre's MAX_REPEAT opcode
+
+
+def has_big(node):
+    k = node[0]
+    if k == "rep":
+        q = node[2]
+        return (isinstance(q, list) and max(q[1:]) > 8) or has_big(node[1])
+    if k == "grp":
+        return has_big(node[2])
+    if k in ("alt", "seq"):
+        return any(has_big(n) for n in node[1])
+    return False
+
+
+def _quant(bounded_only, big_ok=False):
     small = st.integers(0, 4)
     opts = [st.just("?"), small.map(lambda n: ["n", n]),
-            st.tuples(small, st.integers(0, 4)).map(lambda t: ["n,m", t[0], t[0] + t[1]])]
+            st.tuples(small, st.integers(0, 4)).map(lambda t: ["n,m", t[0], t[0] + t[1]])] * 2
+    if big_ok:
+        # explicit counts above the generator's limit for open-ended quantifiers
+        big = st.sampled_from(BIG_COUNTS)
+        opts += [big.map(lambda n: ["n", n]),
+                 st.tuples(st.one_of(small, big), big).map(lambda t: ["n,m", min(t), max(t)])]
     if not bounded_only:
         opts += [st.just("*"), st.just("+"),
                  st.one_of(small, st.sampled_from([31, 32, 33, 40])).map(lambda n: ["n,", n])]
@@ -110,7 +130,7 @@ def node_strategy(draw, depth, allow_unsup=False):
         return ["seq", draw(st.lists(node_strategy(depth - 1), min_size=1, max_size=4))]
     inner = draw(node_strategy(depth - 1))
     bounded_only = has_unbounded(inner) or rep_depth(inner) >= 2
-    return ["rep", inner, draw(_quant(bounded_only)), draw(st.booleans())]
+    return ["rep", inner, draw(_quant(bounded_only, big_ok=not has_big(inner))), draw(st.booleans())]
 
 
 def count_unbounded(node):
@@ -126,10 +146,25 @@ def count_unbounded(node):
     return 0
 
 
+def var_rep_depth(node):
+    """nesting depth counting only quantifiers with a variable count"""
+    k = node[0]
+    if k == "rep":
+        q = node[2]
+        own = 0 if (isinstance(q, list) and q[0] == "n") else 1
+        return own + var_rep_depth(node[1])
+    if k == "grp":
+        return var_rep_depth(node[2])
+    if k in ("alt", "seq"):
+        return max([var_rep_depth(n) for n in node[1]] + [0])
+    return 0
+
+
 def is_cheap_to_match(node):
-    """no quantifier inside a quantifier and at most two open-ended quantifiers: matching (also *failing* to
-    match, which is what re.search / Hypothesis' from_regex do a lot) stays polynomial with a small degree"""
-    return rep_depth(node) <= 1 and count_unbounded(node) <= 2
+    """no variable quantifier inside a variable quantifier (fixed counts `{n}` may nest once) and at most two
+    open-ended quantifiers: matching (also *failing* to match, which is what re.search / Hypothesis' from_regex
+    do a lot) stays polynomial with a small degree"""
+    return rep_depth(node) <= 2 and var_rep_depth(node) <= 1 and count_unbounded(node) <= 2
 
 
 @st.composite
